@@ -85,7 +85,7 @@ fn rtcp_total<const N: usize>(pt: u8) {
     leak(r);
 }
 
-// @h name=vc07_rtcp_parse_rr16 tier=thorough timeout=1200
+// @h name=vc07_rtcp_parse_rr16 tier=experimental timeout=1200
 // @fn parse_rtcp_packets
 // @bound 16 arbitrary bytes with packet type 201 (receiver report): any version/count/length fields
 // @oracle terminates with Ok or Err: no panic, no overflow, every loop bounded by the input length
@@ -93,7 +93,7 @@ fn rtcp_total<const N: usize>(pt: u8) {
 #[kani::unwind(20)]
 fn vc07_rtcp_parse_rr16() { rtcp_total::<16>(201) }
 
-// @h name=vc07_rtcp_parse_sdes16 tier=thorough timeout=1800
+// @h name=vc07_rtcp_parse_sdes16 tier=experimental timeout=1800
 // @fn parse_rtcp_packets
 // @bound 16 arbitrary bytes with packet type 202 (SDES)
 // @oracle as vc07_rtcp_parse_rr16
@@ -101,7 +101,7 @@ fn vc07_rtcp_parse_rr16() { rtcp_total::<16>(201) }
 #[kani::unwind(20)]
 fn vc07_rtcp_parse_sdes16() { rtcp_total::<16>(202) }
 
-// @h name=vc07_rtcp_parse_rtpfb16 tier=thorough timeout=1800
+// @h name=vc07_rtcp_parse_rtpfb16 tier=experimental timeout=1800
 // @fn parse_rtcp_packets
 // @bound 16 arbitrary bytes with packet type 205 (transport feedback: NACK / TWCC by FMT)
 // @oracle as vc07_rtcp_parse_rr16
@@ -109,7 +109,7 @@ fn vc07_rtcp_parse_sdes16() { rtcp_total::<16>(202) }
 #[kani::unwind(20)]
 fn vc07_rtcp_parse_rtpfb16() { rtcp_total::<16>(205) }
 
-// @h name=vc07_rtcp_parse_psfb20 tier=thorough timeout=1800
+// @h name=vc07_rtcp_parse_psfb20 tier=experimental timeout=1800
 // @fn parse_rtcp_packets
 // @bound 20 arbitrary bytes with packet type 206 (payload feedback: PLI / FIR / REMB by FMT)
 // @oracle as vc07_rtcp_parse_rr16
@@ -117,7 +117,7 @@ fn vc07_rtcp_parse_rtpfb16() { rtcp_total::<16>(205) }
 #[kani::unwind(24)]
 fn vc07_rtcp_parse_psfb20() { rtcp_total::<20>(206) }
 
-// @h name=vc07_rtcp_parse_any12 tier=thorough timeout=2400
+// @h name=vc07_rtcp_parse_any12 tier=experimental timeout=2400
 // @fn parse_rtcp_packets
 // @bound 12 arbitrary bytes, any packet type
 // @oracle as vc07_rtcp_parse_rr16
